@@ -58,6 +58,7 @@ class Unit:
         self.path = None
         self.not_covered = []
         self.globals = []
+        self.structs = []     # (name, [(ctype, field)]) abstraction structs declared by the unit
         self.sercov = []      # (class name, {field: reason})
 
 
@@ -139,6 +140,15 @@ def parse(path):
             elif d == 'lib':
                 k, v = ln[1:].split(None, 1)[1].split(' = ')
                 u.lib[k.strip()] = v.strip()
+            elif d == 'struct':
+                body = ln[1:].split(None, 2)[2]
+                flds = []
+                for part in body.split(';'):
+                    part = part.strip()
+                    if part:
+                        t, f = part.rsplit(None, 1)
+                        flds.append((t.strip(), f.strip()))
+                u.structs.append((words[1], flds))
             elif d == 'sercov':
                 excl = {}
                 for wd in ln[1:].split(None, 2)[2:]:
